@@ -14,7 +14,7 @@ PROP = "C18"
 LEAN_MODULES = ["Props.C18", "Props.Legacy"]
 RULE = (
     "case = (file family register|block|section, storage text|binary, declared component list, content: garbage, "
-    "empty lines, content matching nothing, truncated binary records, well-formed content). File.read(content) on the "
+    "empty lines, content matching nothing, truncated binary records, well-formed content; one text content in fifty holds a line of 8191-17000 characters). File.read(content) on the "
     "real code with a counter on the data container's append(); the read is aborted by the harness when the counter "
     "exceeds the deterministic budget 2*(1+units+sections)+8 (units = lines in text storage, bytes in binary "
     "storage). Judged by Spec.C18.holds (the read returned and created at most units(+declared sections) elements) "
@@ -145,7 +145,28 @@ print(c18.run_impl(case), 'units =', c18.units_of(case))
 
 
 # ------------------------------------------------------------------ generators
+def with_long_line(rng, x):
+    """text content with one very long line (around and beyond io.DEFAULT_BUFFER_SIZE characters) put in:
+    a line is one unit of input however long it is"""
+    lines = codec.dec_str(x).splitlines(keepends=True)
+    n = rng.choice([8191, 8192, 8193, 9000, 16384, 17000])
+    long = rng.choice("z_ 9") * n + rng.choice(["\n", "\n", ""])
+    i = rng.randrange(0, len(lines) + 1)
+    if i < len(lines) and not long.endswith("\n"):
+        long += "\n"
+    if i == len(lines) and lines and not lines[-1].endswith("\n"):
+        lines[-1] += "\n"
+    return codec.enc_str("".join(lines[:i] + [long] + lines[i:]))
+
+
 def random_case(rng):
+    c = random_case0(rng)
+    if not c["binary"] and rng.random() < 0.02:
+        c["x"] = with_long_line(rng, c["x"])
+    return c
+
+
+def random_case0(rng):
     r = rng.random()
     if r < 0.3:
         c = c04.random_case(rng)
